@@ -15,4 +15,5 @@ MCWSet == IF "BIGSTEP" \in DOMAIN IOEnv /\ IOEnv.BIGSTEP = "1" THEN {TRUE} ELSE 
 MCBugInitEmpty == "BUG" \in DOMAIN IOEnv /\ IOEnv.BUG = "initempty"
 MCBugStaleInit == "BUG" \in DOMAIN IOEnv /\ IOEnv.BUG = "staleinit"
 MCBugRelinkDrop == "BUG" \in DOMAIN IOEnv /\ IOEnv.BUG = "relinkdrop"
+MCBugNoRepub == "BUG" \in DOMAIN IOEnv /\ IOEnv.BUG = "norepub"
 =============================================================================
